@@ -134,6 +134,22 @@ func VerifC15Lockstep() {
 	verifAssume(!ref.gaveUp)
 
 	p := NewParser(ActionTable, GotoTable, prods, tm)
+	// a parser object that has been used before: whatever an earlier (possibly rejected) input
+	// left on its stack must not matter
+	for i := 0; i < verifParam("STALE", 0); i++ {
+		// one of a few representative states (kept small: the point is that ANY leftover matters not)
+		k := verifNondetInt("stalestate")
+		s := 1
+		switch {
+		case k == 1:
+			s = 7
+		case k == 2:
+			s = 12
+		case k == 3:
+			s = 40
+		}
+		p.stack.Push(State(s), nil)
+	}
 	_, err := p.Parse(sc)
 
 	verifAssert((err == nil) == ref.accepted, "accepted iff the token sequence is a sentence of spec/gocc2.ebnf")
